@@ -241,6 +241,14 @@ func finish(cfg *Config, rep *Report) int {
 	exit := 0
 	known := 0
 	var knownLines []string
+	type knownHit struct {
+		f       *finding
+		sigs    int
+		cases   int
+		example string
+	}
+	knownAgg := map[string]*knownHit{}
+	var knownOrder []string
 	os.MkdirAll(filepath.Join(cfg.Dir, "replays"), 0o755)
 	for _, sig := range order {
 		vs := bySig[sig]
@@ -253,9 +261,14 @@ func finish(cfg *Config, rep *Report) int {
 		}
 		if hit != nil {
 			known++
-			line := fmt.Sprintf("KNOWN-FINDING: property=%s %s [%s] (%d case(s); e.g. %s)", cfg.Property, hit.Text, hit.ID, len(vs), oneLine(vs[0].Detail, 200))
-			knownLines = append(knownLines, line)
-			fmt.Println(line)
+			kf := knownAgg[hit.ID]
+			if kf == nil {
+				kf = &knownHit{f: hit, example: vs[0].Detail}
+				knownAgg[hit.ID] = kf
+				knownOrder = append(knownOrder, hit.ID)
+			}
+			kf.sigs++
+			kf.cases += len(vs)
 			continue
 		}
 		exit = 1
@@ -266,6 +279,12 @@ func finish(cfg *Config, rep *Report) int {
 		os.WriteFile(path, b, 0o644)
 		fmt.Printf("VIOLATION property=%s replay=%s\n", cfg.Property, path)
 		fmt.Printf("  sig: %s\n  detail: %s\n  cases: %d\n", sig, oneLine(vs[0].Detail, 1500), len(vs))
+	}
+	for _, id := range knownOrder {
+		kf := knownAgg[id]
+		line := fmt.Sprintf("KNOWN-FINDING: property=%s %s [%s] (%d case(s), %d signature variant(s); e.g. %s)", cfg.Property, kf.f.Text, kf.f.ID, kf.cases, kf.sigs, oneLine(kf.example, 300))
+		knownLines = append(knownLines, line)
+		fmt.Println(line)
 	}
 	if cfg.Replay != "" {
 		// a replay run reports but does not rewrite the evidence
